@@ -312,3 +312,24 @@ B('c11-reshape-order', 'C11', RESH, "    # Transpose array to match existing dim
 B('c11-multiaxis-order', 'C11', AXES, "        self.axes = Axes(axes)\n        self._name", "        self.axes = Axes(axes[::-1])\n        self._name", 'members reversed')
 N('c11-n-rename', 'C11', RESH, "newvalues", "regrouped", 'rename', all=True)
 N('c11-n-len', 'C11', RESH, "    if dims != self.dims[insert:insert+len(dims)]:", "    if dims != self.dims[insert:insert+n]:", 'n instead of len(dims)')
+
+# ------------------------------------------------------------------------------- C12
+B('c12-F6-stack-positional', 'C12', ALIGN, "    # inputs are matched by dimension name: same dimensions in another order are transposed\n    arrays = [a if a.dims == arrays[0].dims or set(a.dims) != set(arrays[0].dims)\n              else a.transpose(arrays[0].dims) for a in arrays]\n\n    # make it a numpy array", "    # make it a numpy array", 'reintroduce F6 (stack)')
+B('c12-F6-concat-positional', 'C12', ALIGN, "    # inputs are matched by dimension name: same dimensions in another order are transposed\n    arrays = [a if a.dims == arrays[0].dims or set(a.dims) != set(arrays[0].dims)\n              else a.transpose(arrays[0].dims) for a in arrays]\n\n    values = np.concatenate", "    values = np.concatenate", 'reintroduce F6 (concatenate)')
+B('c12-F7-dict-views', 'C12', ALIGN, "        if keys is None: keys = list(arrays.keys())\n        arrays = list(arrays.values())", "        if keys is None: keys = arrays.keys()\n        arrays = arrays.values()", 'reintroduce F7')
+B('c12-values-before-normalise', 'C12', ALIGN, "    # inputs are matched by dimension name: same dimensions in another order are transposed\n    arrays = [a if a.dims == arrays[0].dims or set(a.dims) != set(arrays[0].dims)\n              else a.transpose(arrays[0].dims) for a in arrays]\n\n    values = np.concatenate([a.values for a in arrays], axis=axis)\n", "    values = np.concatenate([a.values for a in arrays], axis=axis)\n\n    # inputs are matched by dimension name: same dimensions in another order are transposed\n    arrays = [a if a.dims == arrays[0].dims or set(a.dims) != set(arrays[0].dims)\n              else a.transpose(arrays[0].dims) for a in arrays]\n", 'seeded C12-1')
+B('c12-getaxes-update-rule', 'C12', ALIGN, "            if common_axis is None or (common_axis.size==1 and axis.size > 1):", "            if common_axis is None or (common_axis.size==1 or axis.size > 1):", 'seeded C12-2')
+B('c12-getaxes-dropped', 'C12', ALIGN, "    try: \n        axes = _get_axes(*arrays)\n    except ValueError as msg: \n        if 'axes are not aligned' in repr(msg):\n            msg = 'axes are not aligned\\n ==> Try passing `align=True`' \n        raise ValueError(msg)", "    axes = arrays[0].axes", 'no alignment check at all')
+B('c12-error-swallowed', 'C12', ALIGN, "            msg = 'axes are not aligned\\n ==> Try passing `align=True`' \n        raise ValueError(msg)", "            msg = 'axes are not aligned\\n ==> Try passing `align=True`' \n        axes = arrays[0].axes", 'exception swallowed')
+B('c12-check-loop-skipped', 'C12', ALIGN, "    if not align and not _no_check:\n        # check that other axes match", "    if not align and _no_check:\n        # check that other axes match", 'check loop never runs for normal calls')
+B('c12-check-by-position', 'C12', ALIGN, "                if not np.all(a.axes[ax.name].values == ax.values):", "                if not np.all(a.axes[0].values == ax.values):", 'secondary axes matched by position')
+B('c12-strict-dropped', 'C12', ALIGN, "    if align:\n        kwargs['strict'] = True\n        for ax in arrays[0].axes:", "    if align:\n        for ax in arrays[0].axes:", 'arrays lacking a dim silently pass')
+B('c12-concat-axis-k', 'C12', ALIGN, "    newaxes = subaxes[:axis] + [newaxis] + subaxes[axis:]", "    newaxes = [newaxis] + subaxes", 'concatenated axis always first')
+B('c12-concat-labels-order', 'C12', ALIGN, "    newaxis = _concatenate_axes([a.axes[axis] for a in arrays])", "    newaxis = _concatenate_axes([a.axes[axis] for a in arrays[::-1]])", 'labels reversed order')
+B('c12-stack-keys', 'C12', ALIGN, "    newaxis = Axis(keys, axis)\n", "    newaxis = Axis(np.arange(len(arrays)), axis)\n", 'keys ignored')
+B('c12-stack-axis-last', 'C12', ALIGN, "    newaxes = [newaxis] + axes\n", "    newaxes = axes + [newaxis]\n", 'new axis last but data first')
+B('c12-stackaxis-existing', 'C12', ALIGN, "    if axis in dims:\n        raise ValueError(\"please provide an axis name which does not \\\n                already exist, or use `concatenate`\")\n    return axis", "    return axis", 'existing name accepted')
+B('c12-nocheck-leak', 'C12', 'dimarray/core/dimarraycls.py', "        dim_array = stack(items, keys=label0, axis=dim0, align=align)", "        dim_array = stack(items, keys=label0, axis=dim0, align=align) if True else concatenate(items, _no_check=True)", 'second caller of _no_check')
+B('c12-concataxes-names', 'C12', ALIGN, "    if len({ax.name for ax in axes}) != 1: \n        print(axes)\n        raise ValueError(\"axis names differ!\")\n", "", 'axes of different names concatenated')
+N('c12-n-rename', 'C12', ALIGN, "subaxes", "others", 'rename', all=True)
+N('c12-n-normalise-form', 'C12', ALIGN, "    arrays = [a if a.dims == arrays[0].dims or set(a.dims) != set(arrays[0].dims)\n              else a.transpose(arrays[0].dims) for a in arrays]\n\n    # make it a numpy array", "    arrays = [b if b.dims == arrays[0].dims or set(b.dims) != set(arrays[0].dims)\n              else b.transpose(arrays[0].dims) for b in arrays]\n\n    # make it a numpy array", 'comprehension variable renamed')
